@@ -442,6 +442,7 @@ impl Inject for ConfigActor {
         self.raft = raft.map(|e| Arc::downgrade(&e));
         self.namespace_actor = factory_data.get_actor();
         self.tenant_index.namespace_actor = self.namespace_actor.clone();
+        self.tenant_index.announce_namespaces_in_use();
         if let Some(conn_manage) = factory_data.get_actor() {
             self.subscriber.set_conn_manage(conn_manage);
         }
